@@ -166,7 +166,7 @@ class State:
 
 
 class SymEx:
-    def __init__(self, low, mode='REAL', unit_roundoff=None, summaries=None):
+    def __init__(self, low, mode='REAL', unit_roundoff=None, summaries=None, summary_for=None):
         self.low = low
         self.mode = mode
         self.u = unit_roundoff
@@ -174,6 +174,7 @@ class SymEx:
         for f in low.funcs.values():
             self.by_cname[f.cname] = f
         self.summaries = summaries or {}
+        self.summary_for = summary_for     # optional: Func -> summary or None (decided per callee)
         self.nbox = 0
         self.nsym = 0
         self.assumes = []        # bool terms assumed (library contracts: sqrt, PI bounds, noise bounds)
@@ -344,6 +345,10 @@ class SymEx:
         """Execute function f (Func) with evaluated argument values; returns return value."""
         if f.cname in self.summaries:
             return self.summaries[f.cname](self, f, args, st)
+        if self.summary_for is not None:
+            sm = self.summary_for(f)
+            if sm is not None:
+                return sm(self, f, args, st)
         if f.body is None:
             raise Unsupported('no body for %s' % f.qualname)
         self.depth += 1
